@@ -1,7 +1,7 @@
 (* C20 — a run depends only on its own arguments. *)
 From Coq Require Import List Arith.
 Import ListNotations.
-From Yaqs Require Import Model.Params Proofs.ParamsP Model.ObjStore Proofs.ObjStoreP Model.DigitalLoop Model.InitRule Gen.InitGen Proofs.InitGenP.
+From Yaqs Require Import Model.Params Proofs.ParamsP Model.ObjStore Proofs.ObjStoreP Model.DigitalLoop Model.InitRule Gen.InitGen Proofs.InitGenP Model.Failures Proofs.FailuresP.
 
 (* strong / analog front-ends: whatever sequence of noisy and noise-free runs was made before on the same parameter
    object, a run executes as many trajectories as a fresh object would *)
@@ -57,6 +57,14 @@ Theorem C20_history_with_refusals_independent : forall h noisy p q,
   run_weak noisy (weak_attempts h p) = run_weak noisy p /\ run_strong noisy (strong_attempts h q) = run_strong noisy q.
 Proof. exact attempts_history_independent. Qed.
 Print Assumptions C20_history_with_refusals_independent.
+
+(* a run can also FAIL inside the engines (an unsupported gate, a worker error beyond its retries): after any history of completed,
+   refused and failed calls through the public entry point the object carries the caller's request and the next run executes what it
+   would on a fresh object *)
+Theorem C20_history_with_failures_independent : forall h noisy p q,
+  run_strong noisy (strong_tries h p) = run_strong noisy p /\ run_weak noisy (weak_tries h q) = run_weak noisy q.
+Proof. exact tries_history_independent. Qed.
+Print Assumptions C20_history_with_failures_independent.
 
 (* result storage is re-initialised per run, as the SOURCE states it now (Gen/InitGen.v is regenerated from Observable.initialize on every
    run): the shape of Observable.trajectories and the length of Observable.results are a function of the parameter object of THIS run
